@@ -3,7 +3,7 @@
    (PERT-free priority rules, no individual absences, auto-task flag off). *)
 From Coq Require Import List ZArith QArith Bool Arith Lia.
 From PV Require Import Model.Types Model.Sim Model.LogEdit Proofs.Base Proofs.Frames Proofs.Proj Proofs.RunLemmas
-  Proofs.LogsProof Proofs.C13Proof Proofs.C13Run Proofs.C15Proof Proofs.C18Proof Proofs.C03Res Proofs.KeyCong Proofs.KeepList Proofs.C10Del Proofs.C10Auto.
+  Proofs.LogsProof Proofs.C13Proof Proofs.C13Run Proofs.C15Proof Proofs.C18Proof Proofs.C03Res Proofs.C12Proof Proofs.C12Run Proofs.KeyCong Proofs.KeepList Proofs.PertShift Proofs.C10Del Proofs.C10Auto.
 Import ListNotations.
 Open Scope nat_scope.
 
@@ -139,7 +139,6 @@ Proof.
   rewrite A8, B8. unfold cost_remove, steps. apply rem_rows; [|exact Hrows]. intros ra rb Hr. apply R_total; exact Hr.
 Qed.
 
-Hypothesis Hrule : pert_free (o_rule oA).
 Hypothesis Hwabs : forall w, w_abs c w = [].
 Hypothesis Hfabs : forall f, f_abs c f = [].
 Hypothesis HF : Forest c.
@@ -147,11 +146,14 @@ Hypothesis Hinit : o_init_state oA = true.
 Hypothesis Hlog : o_init_log oA = true.
 
 Section WithInvariant.
-Variable Iv : pstate -> Prop.
+Variable Iv IvB : pstate -> Prop.
 Hypothesis Iv_next : forall x, Iv x -> Iv (next c oA (update c oA x)).
+Hypothesis IvB_next : forall y, IvB y -> IvB (next c oB (update c oB y)).
 Hypothesis Iv_stutter : forall x, Iv x -> mem (time x) L = true ->
   KEg c false (half c oA (update c oA x)) (update c oA x).
-Hypothesis Iv_init : forall s0, Iv (initialize c oA s0).
+Hypothesis Iv_sort : forall x y, Iv x -> IvB y -> KEg c false (update c oA x) (update c oA y) ->
+  SortAgree c (o_rule oA) (update c oA x) (update c oA y).
+Hypothesis Iv_init : forall s0, Iv (initialize c oA s0) /\ IvB (initialize c oA s0).
 
 Lemma deletion_generic s0 :
   status (fst (simulate c oA s0)) = StSuccess ->
@@ -163,7 +165,8 @@ Proof.
   set (x0 := initialize c oA s0) in *.
   change (initialize c oB s0) with x0 in HtB0.
   destruct (logs_initialize_clear c oA s0 Hlog) as [H0 T0]. fold x0 in H0, T0.
-  destruct (sim c oA Hrule Hwabs Hfabs HF Iv Iv_next Iv_stutter x0 trA _ HtA Hst x0) as (trB & fB & HtB & HsB & HfB & Hrows).
+  destruct (sim c oA Hwabs Hfabs HF Iv IvB Iv_next IvB_next Iv_stutter Iv_sort x0 trA _ HtA Hst x0) as (trB & fB & HtB & HsB & HfB & Hrows).
+  { apply Iv_init. }
   { apply Iv_init. }
   { apply PInv_initialize. exact Hinit. }
   { left. apply KE_refl. }
@@ -179,27 +182,64 @@ Proof.
 Qed.
 End WithInvariant.
 
-(* the auto-task flag is off *)
-Theorem deletion_gives_the_absence_free_run : o_auto_abs oA = false -> forall s0,
-  status (fst (simulate c oA s0)) = StSuccess ->
-  same_result (snd (remove_absence c (L, fst (simulate c oA s0)))) (fst (simulate c oB s0)).
+(* when is an absence step a stutter: the auto-task flag is off, or there is
+   no automatic task (and the configuration is well formed) *)
+Definition stutter_class : Prop :=
+  o_auto_abs oA = false
+  \/ ((forall t, t_auto c t = false)
+      /\ (forall w, In w (all_workers c) -> w < nW c) /\ NoDup (all_workers c)
+      /\ (forall p f, In f (wp_facs c p) -> f < nF c)).
+
+(* when do the two runs order the candidates the same way: the rule does not
+   read PERT values, or it is TSLACK / EST on a finish-to-start DAG with
+   non-negative work amounts *)
+Definition sort_class : Prop :=
+  pert_free (o_rule oA)
+  \/ ((o_rule oA = 0 \/ o_rule oA = 1)%Z
+      /\ (exists rank, fs_dag c rank) /\ 0 < nT c
+      /\ (forall t, t < nT c -> (0 <= t_work c t)%Q /\ (0 <= t_progress c t <= 1)%Q)).
+
+Lemma NN_next rank o x : fs_dag c rank -> NN c x -> NN c (next c o (update c o x)).
 Proof.
-  intros Hauto. apply (deletion_generic (fun _ => True)); [intros; exact I| |intros; exact I].
-  intros x _ Hm. apply absence_half; [exact Hauto|]. rewrite (time_update c oA). exact Hm.
+  intros D H. unfold next, half. apply (NN_td c (step_perform c o (step_allocate c o (update c o x)))); [reflexivity|].
+  apply (NN_step_perform c). apply (NN_step_allocate c). apply (NN_after_update c rank D). exact H.
 Qed.
 
-(* the flag is on, but there is no automatic task *)
-Theorem deletion_auto_flag_without_auto_tasks :
-  (forall w, In w (all_workers c) -> w < nW c) -> NoDup (all_workers c) ->
-  (forall p f, In f (wp_facs c p) -> f < nF c) ->
-  o_auto_abs oA = true -> (forall t, t_auto c t = false) -> forall s0,
+Theorem deletion_gives_the_absence_free_run : stutter_class -> sort_class -> forall s0,
   status (fst (simulate c oA s0)) = StSuccess ->
   same_result (snd (remove_absence c (L, fst (simulate c oA s0)))) (fst (simulate c oB s0)).
 Proof.
-  intros Hw1 Hw2 Hf1 Hauto Hna. apply (deletion_generic (Q0 c)).
-  - intros x Hx. apply Q0_next; assumption.
-  - intros x Hx Hm. apply absence_half_auto; assumption.
-  - intros s0. apply Q0_initialize. exact Hinit.
+  intros HS HP.
+  apply (deletion_generic
+           (fun x => (o_auto_abs oA = false \/ Q0 c x) /\ (pert_free (o_rule oA) \/ NN c x))
+           (fun y => pert_free (o_rule oA) \/ NN c y)).
+  - intros x [H1 H2]. split.
+    + destruct HS as [Ha|(Hna & W1 & W2 & W3)]; [left; exact Ha|].
+      destruct H1 as [Ha|HQ]; [left; exact Ha|right; apply Q0_next; assumption].
+    + destruct HP as [Hr|(_ & (rank & D) & Hn & _)]; [left; exact Hr|].
+      destruct H2 as [Hr|HN]; [left; exact Hr|right; apply (NN_next rank); assumption].
+  - intros y H2. destruct HP as [Hr|(_ & (rank & D) & Hn & _)]; [left; exact Hr|].
+    destruct H2 as [Hr|HN]; [left; exact Hr|right; apply (NN_next rank); assumption].
+  - intros x [H1 _] Hm. destruct H1 as [Ha|HQ].
+    + apply absence_half; [exact Ha|]. rewrite (time_update c oA). exact Hm.
+    + destruct HS as [Ha|(Hna & W1 & W2 & W3)].
+      * apply absence_half; [exact Ha|]. rewrite (time_update c oA). exact Hm.
+      * destruct (o_auto_abs oA) eqn:Ea.
+        -- apply absence_half_auto; assumption.
+        -- apply absence_half; [exact Ea|]. rewrite (time_update c oA). exact Hm.
+  - intros x y [_ H2] H3 HK.
+    destruct HP as [Hr|(Hrule & (rank & D) & Hn & _)]; [apply (SortAgree_pert_free c false); assumption|].
+    destruct H2 as [Hr|HNx]; [apply (SortAgree_pert_free c false); assumption|].
+    destruct H3 as [Hr|HNy]; [apply (SortAgree_pert_free c false); assumption|].
+    apply (SortAgree_pert c rank D _ _ (inject_nat (time x)) (inject_nat (time y))).
+    + apply (update_PertOK c rank D Hn). exact HNx.
+    + apply (update_PertOK c rank D Hn). exact HNy.
+    + intros v. apply (KE_rem c false _ _ v HK).
+    + exact Hrule.
+  - intros s0. split; [split|].
+    + destruct HS as [Ha|(Hna & W1 & W2 & W3)]; [left; exact Ha|right; apply Q0_initialize; exact Hinit].
+    + destruct HP as [Hr|(_ & (rank & D) & Hn & Hw)]; [left; exact Hr|right; apply (NN_initialize c Hw); exact Hinit].
+    + destruct HP as [Hr|(_ & (rank & D) & Hn & Hw)]; [left; exact Hr|right; apply (NN_initialize c Hw); exact Hinit].
 Qed.
 
 End Final.
